@@ -36,9 +36,10 @@ FAMILY = "c09"
 LEAN_MODULE = "ElfioVerif.Props.C09"
 THEOREMS = ["ElfioVerif.C09.elf_hash_eq", "ElfioVerif.C09.gnu_hash_eq", "ElfioVerif.C09.sysvStep_nat",
             "ElfioVerif.C09.gnuHash_nat", "ElfioVerif.C09.st_info_spec",
-            "ElfioVerif.C09.sym_bytes", "ElfioVerif.C09.sym_roundtrip", "ElfioVerif.C09.getSymbol_decoded",
-            "ElfioVerif.C09.readout_content_only", "ElfioVerif.C09.lookup_name", "ElfioVerif.C09.lookup_value",
-            "ElfioVerif.C09.sysv_empty_name_witness"]
+            "ElfioVerif.C09.sym_bytes", "ElfioVerif.C09.sym_roundtrip", "ElfioVerif.SymTab.getSymbol_decoded",
+            "ElfioVerif.C09.readout_content_only", "ElfioVerif.C09.wf_loaded", "ElfioVerif.C09.sym_roundtrip_reloaded",
+            "ElfioVerif.C09.lookup_value", "ElfioVerif.C09.lookup_name",
+            "ElfioVerif.SymTab.hashLookup_sound", "ElfioVerif.SymTab.gnuLookup_sound"]
 SITES = ["sym_", "sym32_", "sym64_", "sysv_", "gnu32_", "gnu64_", "str_get", "str_add", "elf_hash", "elf_gnu_hash",
          "conv16", "conv32", "conv64"]
 RULE = ("tables of 0-60 symbols (names from a 6-letter alphabet incl. duplicates and the empty name, full-width "
